@@ -269,7 +269,7 @@ def p_c08(facts, rep, tier):
         "whose other edge returns KeyOutOfScope or derives from / is dominated by in_scope / find_index_for, and those predicates compare "
         "the key's prefix with the proven path; S3 - every variant of the five error types has a raising site on the corresponding "
         "verifier's path (one frozen exception); S4 - the loops that raise OpOutOfScope / OpsOutOfOrder / PathsOutOfOrder are driven by an iterator over the "
-        "whole input collection (no sub-slicing, skip, take, step_by, chunks.. in its provenance; index loops over 0..len or 1..len); S5 - every confirm_value* compares the whole expected leaf (key path and value hash) with the proven terminal; S6 - the root recomputed in PathProof::verify derives from the queried key path; S7 - in both verify_update functions a branch raising OpOutOfScope is decided by an equality / starts_with comparison of the key's leading bits with the proven path (not only by ordering). Plus compile-fail witnesses (thorough tier) that a client cannot build a Verified* object. "
+        "whole input collection (no sub-slicing, skip, take, step_by, chunks.. in its provenance; index loops over 0..len or 1..len); S5 - every confirm_value* compares the whole expected leaf (key path and value hash) with the proven terminal; S6 - the root recomputed in PathProof::verify derives from the queried key path; S7 - in both verify_update functions a branch raising OpOutOfScope is decided by an equality / starts_with comparison of the key's leading bits with the proven path (not only by ordering). S11: at every hash_path call the sibling count and the length of the hashed bit range are the same quantity (value-leaf equality). Plus compile-fail witnesses (thorough tier) that a client cannot build a Verified* object. "
         "This decides that acceptance passes through the checks; it does not decide that the comparisons are the right ones nor hashing."
     )
     n1 = vguard.s1(facts, rep)
@@ -280,6 +280,7 @@ def p_c08(facts, rep, tier):
     n5 = vguard.s5(facts, rep)
     rep.floor("S5 value confirmations", n5, 3)
     vguard.s7(facts, rep)
+    vguard.s11(facts, rep)
     rep.floor("S1 obligations", n1, 4)
     rep.floor("S2 obligations", n2, 8)
     rep.floor("S3 error variants", n3, 9)
@@ -437,7 +438,7 @@ def p_c17(facts, rep, tier):
         "allowed for its file class (W1); inside the ln/bbn page writers a page number can only originate from SyncAllocator::allocate - no "
         "page-number reads from parameters/captures, constructions, casts or other repo calls returning page numbers (W2); free-list mutators are "
         "callable only from SyncFinisher::finish and allocate uses the clean free list only (W3); rollback segments are opened append-only (W4); the value files are resized at one site only, the growth helper (W5); "
-        "hash-table writes, WAL truncation and log pruning start only post-meta (O3), and the meta write itself is followed by its fsync before it returns (O4: post-meta means post-durable). That the allocator's numbers are free in the previous image "
+        "hash-table writes, WAL truncation and log pruning start only post-meta (O3), and the meta write itself is followed by its fsync before it returns (O4: post-meta means post-durable). W6: SyncAllocator::allocate hands out only results of CleanFreeList::get_nth_pop or page numbers computed from the previous bump. That get_nth_pop's numbers are free in the previous image "
         "(free-list arithmetic) is not decided."
     )
     ctx = sync_ctx(facts)
@@ -445,6 +446,7 @@ def p_c17(facts, rep, tier):
     n2 = syncorder.w2(ctx, rep)
     n2 += syncorder.w2_freelist(ctx, rep)
     n3 = syncorder.w3(ctx, rep)
+    rep.floor("W6 sources of allocated page numbers", syncorder.w6(ctx, rep), 2)
     n4 = syncorder.w4(ctx, rep)
     syncorder.w5(ctx, rep)
     n5 = syncorder.o3(ctx, rep)
